@@ -4,6 +4,7 @@ SPECIFICATION Spec
 INVARIANTS TypeOK PostedIsApprovedByItsBuilder
 PROPERTIES NoResend LeftoverResent BuiltIsFrozen BuiltUnderPublished
 CHECK_DEADLOCK FALSE
+VIEW HView
 CONSTANTS
   D = 8
   NameOf <- MCNameOf
